@@ -250,6 +250,13 @@ def k_decision(name, sh, q, dec):
             f'[lra | exact HB | cbv beta iota; first [split; interval | left; interval | right; interval] | k_side | c_ivl | {side}].\nQed.\n'), None
 
 
+def d36_signature(sh):
+    """signature of D36: a wedge whose angle range reaches or passes north from the west side (angle_max > 360, or
+    angle_max = 360 with angle_min > 0) or starts below 0: contains_coordinate compares the bearing of [0,360) with
+    the raw range.  The generators below never produce one; this guard keeps it that way."""
+    return sh['t'] == 'ring' and not is_full(sh) and (sh['amax'] >= 360 or sh['amin'] < 0)
+
+
 # ------------------------------------------------------------------ generators
 def gen_shapes(rng, n):
     out = [
@@ -424,6 +431,9 @@ def main():
         meta[nm] = dict(m, kind=kind, lemma=txt)
 
     for si, sh in enumerate(shapes):
+        if d36_signature(sh):
+            stats['wedge-across-north(D36, excluded)'] = stats.get('wedge-across-north(D36, excluded)', 0) + 1
+            continue
         kind = 'wedge' if (sh['t'] == 'ring' and not is_full(sh)) else sh['t']
         ck.count('shape:' + kind)
         shape = build(sh)
@@ -505,6 +515,19 @@ def main():
     for f in ck.findings:
         if f.get('status') == 'open' and f.get('signature') == 'curved_polygon_form_straddles_antimeridian' and am_rep == ('Ok', (True, False)):
             ck.known(f)
+    # D36 (known finding): a wedge whose angle range passes through north.  Deterministic replay; the seeded streams
+    # never contain such a wedge (d36_signature, checked per shape above).
+    for f in ck.findings:
+        if f.get('status') == 'open' and f.get('signature') == 'wedge_across_north':
+            rp = f['replay']
+            wsh = {'t': 'ring', 'c': canon(*rp['center']), 'rin': float(rp['inner']), 'rout': float(rp['outer']),
+                   'amin': float(rp['angle_min']), 'amax': float(rp['angle_max'])}
+            wq = direct(wsh['c'], float(rp['bearing']), (wsh['rin'] + wsh['rout']) / 2)
+            wrep = guarded(lambda: (build(wsh).contains_coordinate(C(wq)), build(wsh).to_polygon().contains_coordinate(C(wq))))
+            ck.cov['D36_replay'] = {'shape': wsh, 'q': wq, 'analytic': wrep[1][0] if wrep[0] == 'Ok' else wrep[1],
+                                    'polygon_form': wrep[1][1] if wrep[0] == 'Ok' else wrep[1]}
+            if wrep == ('Ok', (False, True)):
+                ck.known(f)
     # chord-error clause: fixed corpus only
     cbad, cn = chord_corpus_check()
     ck.cov['chord_corpus'] = {'queries': cn, 'disagreements': len(cbad)}
